@@ -78,6 +78,8 @@ def build_lines(prop, case):
     pl = prop.lines(prefix)
     ok = getattr(prop, "warm_ok", None)
     warm = [_shift_slots(l) for l in pl[1 + k:] if ok is None or ok(prefix, l)]
+    if pl and pl[0].startswith("new 0 ") and (k + len(case["ops"])) % 3 == 0:
+        warm.append("reads 0")       # every read-only entry point once: a query must never change the graph
     pre = ["pollute %d" % case["pollute"]] if case.get("pollute") else []
     full = pre + lines[:1 + k] + warm + lines[1 + k:]
     n0 = len(pre)
